@@ -4,7 +4,12 @@ from . import _secp as S
 ID = "C06"
 EXTRA_TARGETS = ["Proofs/EcdsaRefine.vo", "Proofs/EcdsaAbstractInst.vo"]
 LEVEL = "partial"
-RULE = ("deterministic members of the leading-zero-byte class (r = x(kG) < 2^248 / 2^240, small s) in every encoding and in recovery; identity-recovering compact signatures (R = kG, s = z/k) for nine fixed and some random k covering both parities of y(R), both compression markers, digest and message form, with the other parity / other message as controls; (r, s) in {1, 2, 0x7f, 0x80, 2^247.., 2^248-1, 2^255-1, 2^255, n/2, n/2+1, n-2, n-1, random} (and rejected: 0, n, 2^256-1, "
+RULE = ("every public function of src/signature/mod.rs and SighashSignature is reached by some op (hex and bytes variants, accessors, "
+        "get_public_key* and recover_public_key* cross-checked, from_compact_impl, RecoveryInfo::new / from_byte); signature objects "
+        "with recovery info from the signer (used in memory, without a round trip), from from_compact_bytes and without recovery info "
+        "(from_der) through to_compact_bytes(None / equal / different explicit info), recovery and verify_message; minimal (8-byte) and "
+        "maximal (72-byte) DER bare and with every flag; both hashes x both nonce modes on the empty message; "
+        "deterministic members of the leading-zero-byte class (r = x(kG) < 2^248 / 2^240, small s) in every encoding and in recovery; identity-recovering compact signatures (R = kG, s = z/k) for nine fixed and some random k covering both parities of y(R), both compression markers, digest and message form, with the other parity / other message as controls; (r, s) in {1, 2, 0x7f, 0x80, 2^247.., 2^248-1, 2^255-1, 2^255, n/2, n/2+1, n-2, n-1, random} (and rejected: 0, n, 2^256-1, "
         "wrong lengths), s biased so that the final DER byte takes each of the fourteen flag values; DER round trip, DER+flag round "
         "trip for all fourteen flags (all 256 flag bytes in the thorough tier); from_der / SighashSignature::from_bytes on every "
         "truncation and every single-byte mutation (xor 01, xor 80, 00, ff; all 255 values in the thorough tier) of valid encodings, "
@@ -97,6 +102,83 @@ def leading_zero_and_identity_cases(A, rng, thorough):
             A("sig.recover", ["%02x" % (27 + odd + 4 * c) + H(r) + H(sm), mb.hex(), hn])         # identity
             A("sig.recover", ["%02x" % (27 + odd + 4 * c) + H(r) + H(sm), mb.hex() + "00", hn])  # other message: a key
     assert parities == {0, 1}
+
+
+INFOS = ["n", "00", "01", "10", "11", "20", "21", "30", "31"]
+
+
+def audit_cases(A, rng, thorough):
+    """state carried in signature objects (recovery info present / absent / overridden) used without a round trip,
+    every public function, minimal (8-byte) and maximal (72-byte) DER with and without every flag, empty inputs"""
+    H = S.h32
+    der_min = S.der(1, 1)
+    der_max = S.der(N - 1, N - 2)
+    assert len(der_min) == 8 and len(der_max) == 72
+    # --- minimal / maximal DER x every flag: bare, with suffix, through SighashSignature, round trips ---
+    for dd, (r, s_) in ((der_min, (1, 1)), (der_max, (N - 1, N - 2))):
+        A("sig.from_der", [dd.hex()])
+        A("sighashsig.parse", [dd.hex()])
+        A("sig.der_roundtrip", [H(r), H(s_)])
+        A("sig.compact_der", [dd.hex(), "n"])
+        for f in S.FLAGS:
+            A("sig.from_der", [(dd + bytes([f])).hex()])
+            A("sighashsig.parse", [(dd + bytes([f])).hex()])
+            A("sighashsig.roundtrip", [H(r), H(s_), f])
+        A("sig.compact_der", [(dd + bytes([0x41])).hex(), "31"])
+    # minimal DER whose last byte is itself a flag value (s = flag, one content byte), with and without suffix
+    for f in S.FLAGS:
+        if f < 0x80:
+            dd = S.der(rng.choice([1, 0x7F, f]), f)
+            A("sig.from_der", [dd.hex()])
+            A("sighashsig.parse", [dd.hex()])
+            A("sighashsig.parse", [(dd + bytes([f])).hex()])
+    # --- objects WITHOUT recovery info (from_der): to_compact_bytes(None | Some(each info)); recovery must be an error ---
+    for j in range(6 if not thorough else 20):
+        dd = S.der(rscalar(rng), rscalar(rng))
+        for i in (INFOS if j < 2 or thorough else []):
+            A("sig.compact_der", [dd.hex(), i])
+        A("sig.recover_der", [dd.hex(), bytes(rng.randrange(256) for _ in range(32)).hex(), "sha256"])   # 32 bytes: digest form gets past its length guard
+        A("sig.recover_der", [(dd + b"\x41").hex(), "6162", "sha256d"])
+    A("sig.recover_der", [der_min.hex(), "", "sha256"])
+    A("sig.recover_der", ["3006020101020100", "00", "sha256"])
+    A("sig.compact_der", ["", "n"])
+    # --- objects that carry recovery info from from_compact_bytes: explicit info equal to / different from the carried one
+    #     (sig.compact builds its object from header 27, i.e. carried = (0, uncompressed)) ---
+    r, s_ = rscalar(rng), rscalar(rng)
+    for recid in range(4):
+        for c in (0, 1):
+            A("sig.compact", [H(r), H(s_), recid, c])
+    # --- the in-memory object returned by the signer: None / equal / different explicit info, recovery and verify_message
+    #     without a round trip, same and other message / hash, both hashes, both nonce modes, the empty message ---
+    d = 0x1111111111111111111111111111111111111111111111111111111111111111
+    k = 0
+    for c in (0, 1):
+        for i in (INFOS if thorough else ["n", "00", "01", "10", "11", "31"]):
+            h = ["sha256", "sha256d"][k % 2]
+            m = ["", "616263", "00"][k % 3]
+            A("sig.signed", [H(d if k % 2 else rng.randrange(1, N)), c, m, h, (k // 2) % 2, i, m, h])
+            k += 1
+    for h in ("sha256", "sha256d"):
+        for rk in (0, 1):
+            A("sig.signed", [H(d), rk, "", h, rk, "n", "", h])
+            A("sig.sign_recover", [H(d), 1 - rk, "", h, rk, "", h])
+        A("sig.signed", [H(d), 1, "", h, 0, "n", "00", h])                                   # other message
+        A("sig.signed", [H(d), 1, "6162", h, 0, "n", "6162", "sha256" if h == "sha256d" else "sha256d"])   # other hash
+        A("sig.sign_recover", [H(d), 1, "", h, 0, "00", h])
+        # recovery from a Python-made signature over the empty message
+        r, s_, odd = S.sign_msg(d, b"", h == "sha256d")
+        A("sig.recover", ["%02x" % (27 + odd + 4) + H(r) + H(s_), "", h])
+        A("sig.recover_digest", ["%02x" % (27 + odd) + H(r) + H(s_), S.h256(b"", h == "sha256d").hex()])
+    A("sig.signed", [H(0), 1, "00", "sha256", 0, "n", "00", "sha256"])
+    # --- empty inputs, length bands ---
+    A("sig.recover", ["", "00", "sha256"])
+    A("sig.recover_digest", ["", ""])
+    A("sig.recover_digest", ["1f" + H(5) + H(5), ""])
+    for ln in (321, 577):                                                                     # 65 + 256, 65 + 512
+        A("sig.from_compact", ["1f" + H(5) + H(5) + "+r:00:%d" % (ln - 65)])
+    A("sig.from_der", [S.der(5, 6).hex() + "+r:00:256"])
+    A("sighashsig.parse", [S.der(5, 6).hex() + "+r:41:256"])
+    A("sig.from_hex_der", [(S.der(5, 6).hex() + "41").encode().hex()])
 
 
 def rscalar(rng):
@@ -262,6 +344,7 @@ def generate(rng, tier):
 
     # ---------------------------------------------------------------- leading zero bytes; recovery to the identity
     leading_zero_and_identity_cases(A, rng, thorough)
+    audit_cases(A, rng, thorough)
 
     # ---------------------------------------------------------------- sign -> compact -> parse -> recover through the library
     for _ in range(12 * mult):
